@@ -272,6 +272,11 @@ def check_case(case, ctx):
                     for key in ("indexes", "files", "offsets"):
                         if not np.array_equal(np.array(obj.cells[lv][key]), np.array(fresh.cells[lv][key])):
                             v.append(f"marinated reader: cells[{lv}][{key}] differ")
+                    for key in ("mins", "maxs"):
+                        a, b = obj.cells[lv].get(key), fresh.cells[lv].get(key)
+                        if a is None or b is None or list(a) != list(b) or not all(
+                                np.array_equal(np.asarray(a[f]), np.asarray(b[f]), equal_nan=True) for f in b):
+                            v.append(f"marinated reader: per-box {key} of level {lv} differ from a fresh reader's")
                     for b in range(len(fresh.boxes[lv])):
                         if not refread.same_bits(qcall(lambda: obj[:][lv][b]), plot.box_data(lv, b)):
                             v.append(f"marinated reader: level {lv} box {b} does not read the stored data")
